@@ -10,7 +10,7 @@ Definition jnsp : jv := JC "Exc" [JC "NoSuchProcess" []].
 (* NoSuchProcess carrying another PID than the caller's: a live caller never raises for itself *)
 Definition jexc (t : table) (o : pobj) (e : exn) : jv :=
   match e with
-  | NoSuchProcess => if alive_b t o then JC "Exc" [JC "NoSuchProcessOther" []] else jnsp
+  | NoSuchProcess => if live_b t o then JC "Exc" [JC "NoSuchProcessOther" []] else jnsp
   | _ => JC "Exc" [JC (exn_name e) []]
   end.
 Definition jout {A} (t : table) (o : pobj) (f : A -> jv) (r : outcome A) : jv :=
@@ -28,20 +28,28 @@ Definition jpar (x : option (Z * Z)) : jv := jopt (fun ps => JL [JZ (fst ps); JZ
 
 Definition mk_table (l : list (Z * Z * Z)) : table :=
   map (fun x => {| kp_pid := fst (fst x); kp_ppid := snd (fst x); kp_start := snd x |}) l.
-Definition mk_fixes (a b c d : bool) : fixes :=
-  {| fx_skip_self := a; fx_parents_seen := b; fx_parent_reuse := c; fx_parents_nsp := d |}.
+Definition mk_fixes (a b c d e : bool) : fixes :=
+  {| fx_skip_self := a; fx_parents_seen := b; fx_parent_reuse := c; fx_parents_nsp := d; fx_mono := e |}.
 
-(* spec answer by caller state: alive -> demanded value, recycled -> NoSuchProcess,
+(* the caller after a clock history: btime (seconds) at the start, BOOT_TIME cache empty,
+   then clock steps / psutil.boot_time() calls / create_time() calls on the caller *)
+Definition CLK : Z := 100.
+Inductive hev := HSet (b : Z) | HBoot | HCt.
+Definition mk_obj (pid ident b0 : Z) (h : list hev) : pobj :=
+  clock_obj pid ident {| k_btime := b0 * CLK; k_cache := None |}
+    (map (fun e => match e with HSet b => SetBtime (b * CLK) | HBoot => CallBootTime | HCt => CallCreateTime end) h).
+
+(* spec answer by caller state (whatever the create_time() cache holds): alive -> demanded value, recycled -> NoSuchProcess,
    gone (PID absent) -> nothing demanded beyond "a value or NoSuchProcess(caller)" *)
 Definition by_state (t : table) (o : pobj) (v : jv) : jv :=
-  if alive_b t o then v else if recycled_b t o then jnsp else jnone.
+  if live_b t o then v else if recycled_b t o then jnsp else jnone.
 
 Definition the_chain (t : table) (gone goneb : list Z) (o : pobj) : option (list Z) :=
   spec_parents_v t gone goneb (length t) (o_pid o).
 
 (* class tags computed from the input (used for the known-finding classes) *)
 Definition tags (t : table) (gone goneb : list Z) (cache : option Z) (o : pobj) : jv :=
-  JL [ jbool (alive_b t o);
+  JL [ jbool (live_b t o);
        jbool (recycled_b t o);
        (* the caller is its own descendant: a ppid cycle (or self-loop) through it *)
        jbool (climbs t gone (o_pid o) (o_ident o) (length t) (o_pid o));
@@ -57,7 +65,9 @@ Definition tags (t : table) (gone goneb : list Z) (cache : option Z) (o : pobj) 
        jbool (match the_chain t gone goneb o with
               | Some l => existsb (fun q => memz q goneb) l
               | None => negb (match goneb with [] => true | _ => false end)
-              end) ].
+              end);
+       (* the cached create_time() and fresh reads are on different boot-time bases *)
+       jbool (match o_ctime o with Some c => negb (c =? o_ident o) | None => false end) ].
 
 (* outside the domain: a PID listed twice / out of range, or a table that lists no process
    at all (the process running psutil is always listed; pids()[0] would be an IndexError) *)
